@@ -54,6 +54,7 @@ func runC20(c *Ctx) {
 	c20Accum(c, p)
 	c20InputCopy(c, p)
 	c20SearchInLoop(c, p)
+	c20AccumulatorScan(c, p)
 }
 
 func c20Rescan(c *Ctx, p *core.Prog) {
